@@ -27,7 +27,7 @@ sys.path.insert(0, VERIF)
 CONTRACT_MODULES = ['contracts.leaves', 'contracts.stages', 'contracts.stages2', 'contracts.parallel',
                     'contracts.more', 'contracts.factories', 'contracts.stp', 'contracts.cache',
                     'contracts.profiling', 'contracts.database', 'contracts.bucket', 'contracts.laws',
-                    'contracts.shuffle', 'contracts.effects', 'contracts.intersperse', 'contracts.inits', 'contracts.wu', 'contracts.forwarders', 'contracts.inits2', 'contracts.getds', 'contracts.jsondb', 'contracts.keyzip_init', 'contracts.groupby', 'contracts.intersperse_init', 'contracts.localshuffle', 'contracts.bucketiter']
+                    'contracts.shuffle', 'contracts.effects', 'contracts.intersperse', 'contracts.inits', 'contracts.wu', 'contracts.forwarders', 'contracts.inits2', 'contracts.getds', 'contracts.jsondb', 'contracts.keyzip_init', 'contracts.groupby', 'contracts.intersperse_init', 'contracts.localshuffle', 'contracts.bucketiter', 'contracts.misc']
 
 
 def load_contracts():
